@@ -862,6 +862,36 @@ impl Planner {
                 }
             }
         }
+        // B3g: closed 3-manifolds of all kinds from seeded random face pairings of
+        // 1-6 tetrahedra (S^3, lens spaces, S^2 x S^1, connected sums, flat, Seifert
+        // and small hyperbolic manifolds; cell structures with faces meeting
+        // themselves and edges of degree 1 and 2 that tiling covers never produce).
+        // Their topology is not pinned, so only the first clause of C16 is judged:
+        // whatever simplify returns is again a manifold D-set (O16.1), also for every
+        // intermediate state of the sampled runs; a panic is reported as a note.
+        {
+            let reps = if thorough { 12 } else { 2 };
+            for &(k, sd) in corpus.triangulations.iter() {
+                let m = match crate::gen::random_triangulation(k, sd) {
+                    Some(m) => m,
+                    None => continue,
+                };
+                let text = m.to_text();
+                for r in 0..reps {
+                    let (mut s, mut rng) = self.base_spec(&format!("R{}.{}/self", k, sd), &text, Op::SimplifySelf);
+                    if r > 0 {
+                        s.cxf.push(Xf::Shuffle(rng.next_u64()));
+                    }
+                    s.repr = Self::c16_repr(&mut rng);
+                    s.expect = Expect::Unknown;
+                    self.perturb(&mut s, &mut rng, true);
+                    if r == 0 && self.hooks {
+                        s.rec_states = true;
+                    }
+                    specs.push(s);
+                }
+            }
+        }
         // B4: branch-free members of G are closed manifolds themselves
         for e in corpus.g.iter().take(corpus.extra_from) {
             let s0 = match Sym::parse(&e.text) {
